@@ -8,7 +8,7 @@ package types
 //@ func (*Operation).Equal
 //@   requires o != nil && o2 != nil
 //@   pure
-//@   ensures[C15.equal] result == nil <==> (o.ID == o2.ID && o.Type == o2.Type && content(o.Payload) == content(o2.Payload))
+//@   ensures[C15.equal,C03.equal] result == nil <==> (o.ID == o2.ID && o.Type == o2.Type && content(o.Payload) == content(o2.Payload))
 
 // ---- JSON judgements: an operation travels node -> file -> airgapped machine -> file -> HTTP form -> DTO -> node
 //@ import requests "github.com/lidofinance/dc4bc/client/api/http_api/requests"
